@@ -190,6 +190,24 @@ def run(ctx):  # noqa: C901, PLR0912, PLR0915
 
     from .c08 import pool_user_released_under_its_netloc
     pool_user_released_under_its_netloc(ctx, 'C17.R1')   # the pooled client carries the codings negotiated for ONE subscription
+    ctx.borrow('C08', {'C08.R5'}, 'C17.R1', contains=['pool entry ends', '_get_soap_client asks'], why='the pooled client carries the codings negotiated for one subscription')
+    for q_c in ('sdc11073.pysoap.soapclient.SoapClient._send_soap_request',
+                'sdc11073.pysoap.soapclient_async.SoapClientAsync.async_post_message_to'):
+        cf = repo.funcs.get(q_c)
+        if cf is None:
+            continue
+        gc_ = cfg_of(cf)
+        comp = [n_ for n_, c_ in gc_.nodes_calling('compress_payload')]
+        clen = [n_ for n_ in gc_.real_nodes() if n_.kind == 'stmt' and isinstance(n_.stmt, ast.Assign) and
+                any(isinstance(t, ast.Subscript) and isinstance(t.slice, ast.Constant) and str(t.slice.value).lower() == 'content-length'
+                    for t in n_.stmt.targets)]
+        if not comp or not clen:
+            continue   # the framing moved into a helper: the helper is judged where it is inlined
+        stale = [l for l in clen if any(gc_.path_exists(l, c_, normal_only=True) for c_ in comp)]
+        ctx.ob('C17.R4', f'{cf.cls.name}: Content-Length counts the compressed bytes', not stale,
+               f'{cf.cls.name}.{cf.name} sets Content-Length after the body was compressed' if not stale else
+               f'{cf.cls.name}.{cf.name} sets Content-Length before the body is compressed: the header announces the length of the '
+               f'uncompressed text while the compressed bytes are sent - the receiver reads a truncated or over-long body', fi=cf)
     # ------------------------------------------------------------------ R2
     ph = repo.func(f'{CH}.parse_header')
     ok, why = _q_zero_excluded(ph.node)
